@@ -252,6 +252,39 @@ def fork_machines():
     out.append(("fork_auto_region", md, [ops], ["back", "back_fct"]))      # back11: the inference does not compile with Fusion tables
     return out
 
+def explicit_completion_machines():
+    """explicit entry (into a one-region submachine) and a fork naming a state in every region, the entered states having
+    completion transitions: they fire right after the entry, before the next event (one guarded, one chain)"""
+    mid = state(zone=0); mid["explicit"] = True
+    sub1 = machine([state(zone=0), mid, state(zone=0), state(zone=0)], [0],
+                   [row(10, 1, "none", 2, guard=True, act="call"), row(11, 2, "none", 3, act="call"), row(12, 0, 5, 1), row(13, 3, 5, 0)])
+    a1 = state(zone=0); a1["explicit"] = True
+    b1 = state(zone=1); b1["explicit"] = True
+    sub2 = machine([state(zone=0), a1, state(zone=0), state(zone=1), b1, state(zone=1)], [0, 3],
+                   [row(20, 1, "none", 2, act="call"), row(21, 4, "none", 5, guard=True, act="call"), row(22, 0, 5, 1), row(23, 3, 5, 4)])
+    root = machine([state(), state(sub=sub1), state(sub=sub2)], [0],
+                   [row(1, 0, 4, ["direct", 1, [1]], act="call"), row(2, 1, 6, 0), row(3, 0, 7, ["direct", 2, [1, 4]], act="call"), row(4, 2, 6, 0),
+                    row(5, 0, 8, 1), row(6, 0, 9, ["direct", 2, [1]])])
+    md = mdef(root, 6)
+    opss = []
+    for val in ([10, 21], [], [10], [21]):
+        opss.append([("start", [], []), ("process", 4, 1, val, []), ("process", 5, 2, val, []), ("process", 6, 3, val, []),
+                     ("process", 7, 4, val, []), ("process", 5, 5, val, []), ("process", 6, 6, val, []),
+                     ("process", 9, 7, val, []), ("process", 6, 8, val, []), ("process", 8, 9, val, []), ("process", 5, 10, val, [])])
+    return [("explicit_completion", md, opss)]
+
+def flag_machines():
+    """a flag carried only by a substate of a submachine; the enclosing machine leaves the submachine by a row with an
+    action into a flagged simple state: what is_flag_active answers inside the action and the target's entry must follow
+    the id the machine reports at that moment (source: the submachine's configuration still counts)"""
+    sub = machine([state(), state(flags=[0])], [0], [row(10, 0, 5, 1, act="call"), row(11, 1, 5, 0)])
+    root = machine([state(), state(sub=sub, flags=[1]), state(flags=[2])], [0],
+                   [row(1, 0, 4, 1, act="call"), row(2, 1, 6, 2, guard=True, act="call"), row(3, 2, 6, 0, act="call"), row(4, 1, 7, 2)])
+    md = mdef(root, 4)
+    ops = [("start", [], []), ("process", 4, 1, [2], []), ("process", 5, 2, [2], []), ("process", 6, 3, [2], []), ("process", 6, 4, [2], []),
+           ("process", 4, 5, [2], []), ("process", 5, 6, [2], []), ("process", 7, 7, [2], []), ("process", 6, 8, [2], [])]
+    return [("flags_leaving_sub", md, [ops])]
+
 def throw_machines():
     """every behaviour position of a step (including the completion transitions it triggers and the behaviours of a
     submachine entered by it) as the throw point, each followed by the same continuation"""
@@ -285,6 +318,20 @@ def throw_machines():
                 opss.append(ops)
     out.append(("throw_then_submit", md, opss))
     return out
+
+def throw_in_pool_machines():
+    """a stored event is dispatched from the queue / pool, takes a transition in region 0 and throws in region 1; an older
+    occurrence deferred by the state region 0 just left is pending before it, a younger one behind it: after the
+    contained exception the older one must be offered first"""
+    m = machine([state(zone=0, defers=[7]), state(zone=0), state(zone=0), state(zone=0), state(zone=0), state(zone=1), state(zone=1)], [0, 5],
+                [row(1, 0, 4, 1), row(2, 1, 7, 2, act="call"), row(3, 1, 5, 3, act="call"), row(4, 2, 5, 4, act="call"), row(5, 4, 6, 0, act="call"),
+                 row(6, 5, 4, 6, act="call"), row(7, 6, 6, 5)])
+    md = mdef(m, 4)
+    opss = []
+    for k in (1, 2, 3, 4):
+        opss.append([("start", [], []), ("process", 7, 1, [], []), ("enqueue", 4, 2), ("enqueue", 5, 3), ("drain", [], [(k, ("throw",))]),
+                     ("process", 6, 4, [], []), ("process", 7, 5, [], [])])
+    return [("throw_in_pool", md, opss)]
 
 def throw_nested_machines():
     """a throw at every behaviour position of a step that enters a submachine (front-end on_entry of the submachine,
@@ -397,7 +444,7 @@ def rowkind_machines():
 def main():
     os.makedirs(os.path.join(VERIF, "corpus"), exist_ok=True)
     n = 0
-    for item in fwd_machines() + ortho_machines() + defer_code_machines() + defer_action_machines() + base_event_machines() + block_machines() + pseudo_machines() + fork_machines() + throw_machines() + throw_nested_machines() + copy_history_machines() + save_pseudo_machines() + rowkind_machines():
+    for item in fwd_machines() + ortho_machines() + defer_code_machines() + defer_action_machines() + base_event_machines() + block_machines() + pseudo_machines() + fork_machines() + explicit_completion_machines() + flag_machines() + throw_machines() + throw_in_pool_machines() + throw_nested_machines() + copy_history_machines() + save_pseudo_machines() + rowkind_machines():
         name, md, opss = item[:3]
         save(name, md, opss, cfgs=item[3] if len(item) > 3 else None)
         n += 1
